@@ -11,6 +11,8 @@
 //         <file> yaml    parsed build_info=<0|1> ts=<k=v,...> keys=<k,...>
 //         <file> <kind>  reject            (Load returned false / YAML parse failed)
 //         <file> <kind>  CRASH sig=<n>|exit=<n>
+//   deptool startup <user> <shared> <staging> <check|full>
+//       RimeStartMaintenance(full_check) + join through the public API (the frontends' start-up path)
 //   deptool info <builddir>
 //       schema_list / dictionary / prism / packs / dependencies as the compiled configs state them
 //   deptool dump <builddir> [<texts file: one text per line, extra reverse lookups>]
@@ -32,6 +34,7 @@
 #include <string>
 #include <vector>
 
+#include <rime_api.h>
 #include <rime/common.h>
 #include <rime/config.h>
 #include <rime/algo/spelling.h>
@@ -312,7 +315,33 @@ static int info(const string& dir) {
   return 0;
 }
 
+// ---------------------------------------------------------------- startup
+// the ordinary start-up deployment of a frontend, in this (fresh) process:
+// RimeStartMaintenance(full_check) + join - with full_check = False the deployment
+// runs only if DetectModifications finds a source newer than var/last_build_time
+static int startup(const char* user, const char* shared, const char* staging, bool full) {
+  RimeApi* api = rime_get_api();
+  RIME_STRUCT(RimeTraits, traits);
+  traits.shared_data_dir = shared;
+  traits.user_data_dir = user;
+  traits.staging_dir = staging;
+  traits.distribution_name = "verif";
+  traits.distribution_code_name = "verif";
+  traits.distribution_version = "0";
+  traits.app_name = "rime.verif";
+  traits.log_dir = "";
+  traits.min_log_level = 3;
+  api->setup(&traits);
+  api->initialize(&traits);
+  Bool started = api->start_maintenance(full ? True : False);
+  if (started) api->join_maintenance_thread();
+  api->finalize();
+  printf("startup started=%d\n", started ? 1 : 0);
+  return 0;
+}
+
 int main(int argc, char** argv) {
+  if (argc == 6 && !strcmp(argv[1], "startup")) return startup(argv[2], argv[3], argv[4], !strcmp(argv[5], "full"));
   if (argc == 3 && !strcmp(argv[1], "info")) return info(argv[2]);
   if (argc == 3 && !strcmp(argv[1], "probe-all")) return probe_all(argv[2]);
   if ((argc == 3 || argc == 4) && !strcmp(argv[1], "dump")) return dump(argv[2], argc == 4 ? argv[3] : nullptr);
